@@ -29,6 +29,10 @@ def cases(tier, seed):
     # a frame listing two channels of one name (copy numbers 0, 1), or one channel twice: refused, or descriptors and rows agree
     for k in range(30 if tier == 'quick' else 600):
         yield {'stratum': 'same-name-twice-in-frame', 'index': k, 'kind': 'dup'}
+    # two same-named channels of two frames that reach ONE origin by different routes (an explicit reference given before the
+    # origin exists, and the back-fill of add_origin): two identities, each frame described by its own channel
+    for k in range(30 if tier == 'quick' else 600):
+        yield {'stratum': 'same-named-channels-two-origin-routes', 'index': k, 'kind': 'origin-routes'}
     # two logical files; a frame of one lists a channel object of the other: refused, or descriptors and rows agree
     for k in range(30 if tier == 'quick' else 600):
         yield {'stratum': 'channel-of-another-logical-file', 'index': k, 'kind': 'foreign'}
@@ -94,6 +98,25 @@ def run_case(case):
         classes = ['dup:' + mode]
         inconsistent = True
         bump('c08-same-name-twice-in-frame')
+    elif case['kind'] == 'origin-routes':
+        n = r.choice([3, 5])
+        R = r.choice([1, 7, 130])
+        sp = gen.base_spec(r.choice([128, 8192]))
+        ops = sp['ops']
+        dts = r.sample(['float64', 'float32', 'uint16', 'int32', 'int16'], 2)
+        first_explicit = r.random() < 0.5
+        for j in range(2):
+            shape = (n,) if j == 0 else (n, r.choice([2, 3]))
+            ops.append(gen.channel_op(f'D{j}', '<f8', (n,), fill={'kind': 'pos', 'tag': 10 + j}))
+            ops.append(gen.channel_op('X', gen.dtstr(dts[j], '<'), shape, fill={'kind': 'pos', 'tag': 20 + j}, dataset_name=f'X-{j}'))
+            if (j == 0) == first_explicit:
+                ops[-1]['origin_reference'] = R
+            ops.append(gen.frame_op(f'F{j}', [len(ops) - 2, len(ops) - 1]))
+        ops.append(gen.origin_op('LATE-ORIGIN', origin_reference=R))
+        sp['write'] = {'source': 'inline', 'output_chunk_size': 2 ** 16}
+        classes = ['origin-routes']
+        inconsistent = False
+        bump('c08-same-named-channels-two-origin-routes')
     elif case['kind'] == 'foreign':
         n = r.choice([3, 5])
         sp = gen.base_spec(r.choice([128, 8192]), lfs=[{'fh_id': 'LF-A'}, {'fh_id': 'LF-B'}])
